@@ -15,6 +15,7 @@ def run(ck):
     replies.spec_http_callbacks(ck)
     replies.spec_socks_callbacks(ck)
     replies.spec_socks_handshake(ck)
+    replies.spec_h11c_connect(ck)
     codec.spec_socks_response_roundtrip(ck, 5)
     codec.spec_socks_response_roundtrip(ck, 4)
     # a reachable panic inside a reply path means the client gets no complete reply: those sites count for C06 as well
